@@ -384,6 +384,12 @@ func (s *storeSim) exec(op simk.Op) {
 			return
 		}
 		s.opUpdate(sp, op)
+	case "push_whole":
+		// the unfragmented bundle arrives (over another path) for a bundle that is otherwise pushed in fragments
+		if sp == nil || !sp.Frag {
+			return
+		}
+		s.opPushWholeOfFrag(sp)
 	case "update_stale":
 		if sp == nil {
 			return
@@ -477,8 +483,34 @@ func (s *storeSim) opPushFrag(sp *storeBSpec, off, length int, crashAt int64) {
 	s.modelAddFrag(sp, w, off, length, wire)
 }
 
+// opPushWholeOfFrag: a record that collects fragments ignores the whole bundle; without a record the
+// whole bundle is filed as such and later fragments are ignored.
+func (s *storeSim) opPushWholeOfFrag(sp *storeBSpec) {
+	b, err := s.whole(sp)
+	if err != nil {
+		return
+	}
+	if !time.Now().Before(b.PrimaryBlock.CreationTimestamp.DtnTime().Time().Add(time.Duration(sp.LifeMs) * time.Millisecond)) {
+		return
+	}
+	wire := bundleWire(&b)
+	if err := s.run("push_whole", func() error { return s.st.Push(b) })[0]; err != nil {
+		s.res.Violate("C08", "push", "push-errors", "Push(%s, whole bundle): %v", sp.Tag, err)
+		return
+	}
+	s.res.Fault("whole_bundle_onto_fragment_record")
+	if s.model[sp.Tag] == nil {
+		s.model[sp.Tag] = &mRec{tag: sp.Tag, id: b.ID().Scrub(), payload: s.payload(sp), total: uint64(sp.PayLen),
+			parts: []mPart{{0, 0, wire}}, expires: b.PrimaryBlock.CreationTimestamp.DtnTime().Time().Add(time.Duration(sp.LifeMs) * time.Millisecond)}
+		s.model[sp.Tag].lifeEnd = s.model[sp.Tag].expires
+	}
+}
+
 func (s *storeSim) modelAddFrag(sp *storeBSpec, w bpv7.Bundle, off, length int, wire []byte) {
 	rec := s.model[sp.Tag]
+	if rec != nil && !rec.frag {
+		return // the whole bundle is stored already: fragments are ignored
+	}
 	if rec == nil {
 		rec = &mRec{tag: sp.Tag, id: w.ID().Scrub(), frag: true, payload: s.payload(sp), total: uint64(sp.PayLen),
 			expires: w.PrimaryBlock.CreationTimestamp.DtnTime().Time().Add(time.Duration(sp.LifeMs) * time.Millisecond)}
@@ -939,6 +971,9 @@ func genStoreCase(seed uint64, tier, focus, variant string) *simk.Case {
 			if r.Bool(0.5) {
 				inPlace = 1 // the kill is real for the rest of the run: the store is reopened on the surviving directory
 			}
+		}
+		if rw := simk.NewRand(seed, fmt.Sprintf("whole%d", i)); sp.Frag && rw.Bool(0.08) {
+			c.Ops = append(c.Ops, simk.Op{K: "push_whole", B: b})
 		}
 		switch x := r.Intn(100); {
 		case x < 38:
